@@ -123,4 +123,66 @@ def snapAfter (h : Root) : List Op → Root
   | _ :: ops => snapAfter h ops
 
 
+/-! ## persistence round trips
+
+`to_dict` → `from_dict` / `create_state_store(serialized_state = …)`: the store object is replaced by one restored
+from a serialized payload; the caller keeps whatever snapshot it holds.
+
+* `reopen`  — the backend restores itself from its own payload: `InMemoryStateStore.from_dict(store.to_dict())`
+  (`create_in_memory_payload`, `serialize_dict_state_data`, `parse_in_memory_state`, `deserialize_state_from_dict`);
+  SQLite: `SqliteStateStore.from_dict` of the `{"store_type": "sqlite", "run_id"}` reference — a new store object
+  on the same row;
+* `copyRun` — SQLite: a store of a *new* run seeded from the sqlite reference of the old one
+  (`_seed_from_serialized` → `_copy_state_from_run`: `INSERT OR REPLACE … SELECT … WHERE run_id = <old>`; no row
+  there, no row here).  Memory: as `reopen`;
+* `migrate` — SQLite: a store of a new run seeded from an *in-memory* payload of the current state
+  (`_write_in_memory_state`: `deserialize_state_from_dict`, `_save_state` — the row exists at once).  Memory: as `reopen`.
+-/
+
+inductive Persist where
+  | reopen
+  | copyRun
+  | migrate
+  deriving DecidableEq, Repr, Inhabited
+
+/-- the payload carries the model type and the top-level mapping; restoring builds the model from them -/
+def Mem.persist (m : Mem) (_ : Persist) : Mem := { m with root := ⟨m.root.ty, m.root.data⟩ }
+
+def Sql.persist (q : Sql) : Persist → Sql
+  | .reopen => q
+  | .copyRun => { q with row := match q.row with | some d => some d | none => none }
+  | .migrate => { q with row := some q.abs.data }
+
+/-- operation lists with persistence round trips in them -/
+inductive OpP where
+  | op (o : Op)
+  | persist (p : Persist)
+  deriving Repr, Inhabited
+
+def OpP.op? : OpP → Option Op
+  | .op o => some o
+  | .persist _ => none
+
+def Mem.stepP (m : Mem) : OpP → Mem × Out
+  | .op o => Mem.step m o
+  | .persist p => (m.persist p, .none)
+
+def Sql.stepP (q : Sql) : OpP → Sql × Out
+  | .op o => Sql.step q o
+  | .persist p => (q.persist p, .none)
+
+def runOutsP {σ : Type} (step : σ → OpP → σ × Out) : σ → List OpP → List Out
+  | _, [] => []
+  | s, op :: ops => (step s op).2 :: runOutsP step (step s op).1 ops
+
+def runStateP {σ : Type} (step : σ → OpP → σ × Out) : σ → List OpP → σ
+  | s, [] => s
+  | s, op :: ops => runStateP step (step s op).1 ops
+
+/-- the results at the positions of the store operations -/
+def outsAtOps : List OpP → List Out → List Out
+  | .op _ :: ops, o :: os => o :: outsAtOps ops os
+  | .persist _ :: ops, _ :: os => outsAtOps ops os
+  | _, _ => []
+
 end StateStore
